@@ -18,7 +18,7 @@ EXT_KINDS_PLAIN = ["aki", "cp", "pm", "san", "ian", "sda", "nc", "pc", "crldp", 
 
 # ------------------------------------------------------------------ vectors
 def cert(s, i, k, g, exts, **kw):
-    c = {"p": 1, "v": 2, "l": 8, "m": 1, "s": s, "i": i, "k": k, "g": g,
+    c = {"p": 1, "v": 2, "l": 8, "m": 0, "o": 0, "h": 0, "s": s, "i": i, "k": k, "g": g,
          "b": NOW - DAY, "a": NOW + 365 * DAY, "x": list(exts)}
     c.update(kw)
     return c
@@ -28,7 +28,7 @@ def tok(c):
     if not c["p"]:
         return "p0"
     x = "+".join(c["x"]) if c["x"] else "-"
-    return "p1,v%d,l%d,m%d,s%d,i%d,k%d,g%d,b%d,a%d,x%s" % (c["v"], c["l"], c["m"], c["s"], c["i"], c["k"], c["g"], c["b"], c["a"], x)
+    return "p1,v%d,l%d,m%d,o%d,h%d,s%d,i%d,k%d,g%d,b%d,a%d,x%s" % (c["v"], c["l"], c["m"], c["o"], c["h"], c["s"], c["i"], c["k"], c["g"], c["b"], c["a"], x)
 
 
 def lst(cs):
@@ -78,7 +78,15 @@ def deviations(idx, nissuers_below):
     add = lambda name, f: d.append((name, f))
     for v in (-1, 0, 1):
         add("version=%d" % v, lambda c, v=v: c.update(v=v))
-    add("alg-mismatch", lambda c: c.update(m=0))
+    # signature algorithm identifiers, inner x outer, with a good and with a corrupted SM2 signature
+    add("hand-composed", lambda c: c.update(h=1))
+    for ia in range(8):
+        for oa in range(8):
+            if ia == 0 and oa == 0:
+                continue
+            add("alg-inner%d-outer%d" % (ia, oa), lambda c, ia=ia, oa=oa: c.update(m=ia, o=oa))
+            if ia == oa or oa in (2, 3):
+                add("alg-inner%d-outer%d-sigbad" % (ia, oa), lambda c, ia=ia, oa=oa: c.update(m=ia, o=oa, g=0))
     add("not-a-cert", lambda c: c.update(p=0))
     add("subject-empty", lambda c: c.update(s=0))
     add("issuer-empty", lambda c: c.update(i=0))
@@ -141,6 +149,8 @@ def deviations(idx, nissuers_below):
 
 
 def dev_group(name):
+    if name.startswith("alg-"):
+        return "alg:" + name
     for p in ("version", "bc-ca", "bc-crit", "bc-twice", "ku=", "ku-crit", "eku=", "add-", "ski-"):
         if name.startswith(p):
             if p == "add-":
@@ -197,6 +207,9 @@ def gen(ctx):
                     pc = posclass(idx, n_chain, tlcp)
                     for name, f in deviations(idx, below):
                         if not thorough and role == 1 and ncas == 2 and not (name.startswith("eku") or name.startswith("bc")):
+                            continue
+                        if not thorough and name.startswith("alg-") and (role == 1 or ncas == 2) and name not in (
+                                "alg-inner2-outer2", "alg-inner2-outer2-sigbad", "alg-inner0-outer2", "alg-inner2-outer0", "alg-inner5-outer5", "alg-inner1-outer1", "alg-inner3-outer3"):
                             continue
                         ch, st = copy.deepcopy(ch0), copy.deepcopy(st0)
                         target = st[0] if idx == n_chain else ch[idx]
